@@ -65,6 +65,15 @@ K_EXEC = "stack:exec-note-without-flag"
 K_EXEC_NOEXEC = "stack:exec-note-with-noexecstack"
 K_UNCLASSIFIED = "props:unclassified-type-error"
 K_NON_U32 = "props:non-uint32-dropped"
+K_GENERIC = "props:generic-uint32-range"
+
+
+def generic_range_only(a, b):
+    """do two canonical property lists differ only in entries of GNU_PROPERTY_UINT32_AND_LO..OR_HI (0xb0000000-0xb000ffff)?"""
+    sa = {x for x in a.split(",") if x and x != "-"}
+    sb = {x for x in b.split(",") if x and x != "-"}
+    diff = sa ^ sb
+    return bool(diff) and all(0xB0000000 <= int(x.split(":")[0], 16) <= 0xB000FFFF for x in diff)
 
 
 def py_class(t):
@@ -515,7 +524,10 @@ def run(ctx):
         if c.in_uint32_region():
             if wpr != lpr:
                 ctx.cov["impl_oracle_failures"] += 1
-                violation_once("props:" + reqs[i], f"output .note.gnu.property differs: wild {wpr}, GNU ld {lpr}", lambda: replay(i))
+                if generic_range_only(wpr, lpr):
+                    violation_once(K_GENERIC, f"properties of the processor-independent UINT32 AND/OR ranges differ from GNU ld: wild {wpr}, GNU ld {lpr}", lambda: replay(i))
+                else:
+                    violation_once("props:" + reqs[i], f"output .note.gnu.property differs: wild {wpr}, GNU ld {lpr}", lambda: replay(i))
         else:
             # compare the UINT32 entries; report dropped non-UINT32 properties under their own key
             l4 = ",".join(x for x in lpr.split(",") if ":b" not in x and x != "-" and py_class(int(x.split(":")[0], 16))) or "-"
@@ -530,5 +542,8 @@ def run(ctx):
                     violation_once("props:non-uint32:" + reqs[i], f"non-UINT32 properties differ: wild {wother}, GNU ld {lother}", lambda: replay(i))
             if w4 != l4:
                 ctx.cov["impl_oracle_failures"] += 1
-                violation_once("props:" + reqs[i], f"output .note.gnu.property differs: wild {w4}, GNU ld {l4}", lambda: replay(i))
+                if generic_range_only(w4, l4):
+                    violation_once(K_GENERIC, f"properties of the processor-independent UINT32 AND/OR ranges differ from GNU ld: wild {w4}, GNU ld {l4}", lambda: replay(i))
+                else:
+                    violation_once("props:" + reqs[i], f"output .note.gnu.property differs: wild {w4}, GNU ld {l4}", lambda: replay(i))
     ctx.cov["oracle_links_checked"] = sum(1 for x in ld_c if not x.startswith("skipped"))
